@@ -282,6 +282,62 @@ theorem runOps_oneEach (cfg : Cfg) (p : Proc) (vars : Vars) (ops : List (String 
     simp only [List.foldl_cons]
     exact ih _ (answer_oneEach cfg p s0 n o a h0)
 
+/-! ## the node is free again when its activation has returned -/
+
+theorem nodup_map_inj {α β : Type _} (f : α → β) : ∀ (l : List α), (l.map f).Nodup → ∀ a b, a ∈ l → b ∈ l → f a = f b → a = b
+  | [], _, _, _, ha, _, _ => absurd ha (by simp)
+  | x :: xs, h, a, b, ha, hb, hab => by
+    simp only [List.map_cons, List.nodup_cons, List.mem_map, not_exists, not_and] at h
+    rcases List.mem_cons.mp ha with ea | ha'
+    · rcases List.mem_cons.mp hb with eb | hb'
+      · rw [ea, eb]
+      · subst ea; exact absurd hab.symm (h.1 b hb')
+    · rcases List.mem_cons.mp hb with eb | hb'
+      · subst eb; exact absurd hab (h.1 a ha')
+      · exact nodup_map_inj f xs h.2 a b ha' hb' hab
+
+/-- with at most one activation per node, taking the parent token `t` out leaves no activation at `t`'s node -/
+theorem filter_frees (subs : List Tok) (t : Tok) (h : (subs.map (·.node)).Nodup) (ht : t ∈ subs) :
+    (subs.filter (· != t)).any (·.node == t.node) = false := by
+  apply Bool.eq_false_iff.mpr
+  intro hany
+  obtain ⟨u, hu, hun⟩ := List.any_eq_true.mp hany
+  obtain ⟨hu1, hu2⟩ := List.mem_filter.mp hu
+  have hne : u ≠ t := by
+    intro e; subst e
+    have : (u != u) = false := by
+      obtain ⟨f, nd⟩ := u
+      simp [bne, BEq.beq, instBEqTok.beq]
+    rw [this] at hu2; exact absurd hu2 (by decide)
+  have hnode : u.node = t.node := by simpa using hun
+  -- two different members of `subs` with the same node contradict `Nodup`
+  exact hne (nodup_map_inj (·.node) subs h u t hu1 ht hnode)
+
+/-- **The node is free for the next token.** When `settle` lets the parent token `t` of an emptied scope leave, no activation
+of `t`'s node is left — so the token that `nextTurn` puts on the work list finds the node idle (`enter_sub_tokens` applies) unless
+another token gets there first. -/
+theorem return_frees_node (cfg : Cfg) (hr : cfg.subNeverReturns = false) (p : Proc) (s : St) (t : Tok) (h : OneEach s)
+    (hig : (settleIncl cfg p s []).1 = none)
+    (hfind : (settleIncl cfg p s []).2.subs.find? (fun u => !liveInScope p (settleIncl cfg p s []).2 u.node []) = some t) :
+    (settle cfg p s).2.subs.any (·.node == t.node) = false := by
+  have e1 : (settleIncl cfg p s []).2.subs = s.subs := settleIncl_subs cfg p s []
+  have ht : t ∈ s.subs := by rw [← e1]; exact List.mem_of_find?_eq_some hfind
+  unfold settle
+  cases hsi : settleIncl cfg p s [] with
+  | mk r s1 =>
+    rw [hsi] at hig hfind e1
+    simp only at hig hfind e1
+    subst hig
+    simp only [hfind, hr, Bool.false_eq_true, if_false]
+    have hfree : (s1.subs.filter (· != t)).any (·.node == t.node) = false := by
+      rw [e1]; exact filter_frees s.subs t h ht
+    cases hnode : p.node? t.node with
+    | none => exact hfree
+    | some n =>
+      simp only
+      rw [nextTurn_subs, selectFlows_subs]
+      exact hfree
+
 /-! ## the history of D43, in the model -/
 
 /-- a parallel fork sends two tokens into ONE sub-process node (task `T` inside), task `C` behind it -/
